@@ -1,6 +1,129 @@
-"""C12 -- engine traces validated against spec/QMC.tla (see qcheck.py)."""
+"""C12 -- constraints on the atoms are respected.
+
+(a) engine traces validated by TLC against QMC.tla (FixAtoms: position tokens of fixed atoms
+    never change through call / accept / reject / fail; C12_Fixed on every end state);
+(b) numeric layer for the clauses TLC cannot state on tokens: fixed centre of mass under
+    displacement (incl. vetoing check_move), Hamiltonian and force-bias moves (incl. fictitious
+    sampler masses), fixed atoms under Hamiltonian and force-bias moves, FixRot.adjust_momenta."""
+
+from __future__ import annotations
+
+import warnings
+
+import numpy as np
+from ase import Atoms
+from ase.constraints import FixAtoms, FixCom
+
+from calcs import Harmonic, PairRebuild
 from qcheck import engine_check
+from common import Report
 
 
-def run(tier):
-    return engine_check("C12", tier)
+def cluster(rs, n, species=("Cu", "Al", "Au", "Pt")):
+    sym = [species[i % len(species)] for i in range(n)]
+    pos = rs.rand(n, 3) * 4 + 3
+    a = Atoms("".join(sym), positions=pos, cell=[12, 12, 12], pbc=False)
+    a.calc = PairRebuild(a=0.3, rc=4.0)
+    return a
+
+
+def run(tier: str) -> int:
+    from quansino.constraints import FixRot
+    from quansino.integrators.displacement import Verlet
+    from quansino.mc.canonical import Canonical, HamiltonianCanonical
+    from quansino.mc.criteria import CanonicalCriteria
+    from quansino.mc.fbmc import ForceBias
+    from quansino.moves.displacement import DisplacementMove, HamiltonianDisplacementMove
+    from quansino.operations.displacement import Ball, Box, Rotation, TranslationRotation
+
+    warnings.simplefilter("ignore")
+    rep = Report("C12", tier, "model_checking")
+    engine_check("C12", tier, rep=rep, finish=False)
+    rs = np.random.RandomState(rep.seed % 2**32)
+    nrun = 6 if tier == "quick" else 40
+    steps = 40 if tier == "quick" else 200
+    for it in range(nrun):
+        n = int(rs.randint(3, 7))
+        kind = ["canon_veto", "canon_composite", "canon_molecule", "hmc", "fbmc", "fbmc_fictitious_masses"][it % 6]
+        for constraint in ("fixcom", "fixatoms"):
+            atoms = cluster(rs, n)
+            fixed = sorted(rs.choice(n, size=int(rs.randint(1, n - 1)), replace=False).tolist())
+            atoms.set_constraint(FixCom() if constraint == "fixcom" else FixAtoms(indices=fixed))
+            com0 = atoms.get_center_of_mass().copy()
+            pos0 = atoms.get_positions().copy()
+            seed = int(rs.randint(1, 10**6))
+            rep.count((kind, constraint, it))
+            ctx = {"kind": kind, "constraint": constraint, "n": n, "seed": seed}
+            try:
+                if kind.startswith("canon"):
+                    mc = Canonical(atoms, temperature=float(rs.choice([300.0, 3000.0])), max_cycles=3, seed=seed)
+                    if kind == "canon_veto":
+                        d = DisplacementMove(np.arange(n), Ball(0.4))
+                        cnt = {"k": 0}
+
+                        def veto(context, cnt=cnt):
+                            cnt["k"] += 1
+                            return cnt["k"] % 3 != 0  # every third attempt is refused
+
+                        d.check_move = veto
+                        d.max_attempts = 2
+                        mc.add_move(d)
+                    elif kind == "canon_composite":
+                        mc.add_move(DisplacementMove(np.arange(n), Box(0.3)) * 2 + DisplacementMove(np.arange(n)[::-1].copy(), Ball(0.2)), criteria=CanonicalCriteria())
+                    else:
+                        lab = np.arange(n) // 2
+                        mc.add_move(DisplacementMove(lab, TranslationRotation() if constraint == "fixatoms" else Rotation()))
+                    mc.run(steps)
+                elif kind == "hmc":
+                    mc = HamiltonianCanonical(atoms, temperature=800.0, max_cycles=1, seed=seed)
+                    h = HamiltonianDisplacementMove(operation=Verlet(dt=float(rs.choice([0.5, 2.0])), max_steps=int(rs.randint(1, 20))))
+                    if it % 2:
+                        h.check_move = lambda context, c={"k": 0}: (c.__setitem__("k", c["k"] + 1) or c["k"] % 4 != 0)
+                    mc.add_move(h)
+                    mc.run(max(steps // 4, 5))
+                else:
+                    mc = ForceBias(atoms, delta=float(rs.choice([0.01, 0.3])), temperature=float(rs.choice([300.0, 5000.0])), seed=seed)
+                    if kind == "fbmc_fictitious_masses":
+                        mc.update_masses(rs.uniform(1, 100, (n, 3)))
+                    mc.run(steps)
+            except Exception as ex:  # noqa: BLE001
+                rep.violation(f"raise:{kind}:{constraint}:{type(ex).__name__}", f"{kind} with {constraint} raised {ex!r}", ctx)
+                continue
+            if constraint == "fixcom":
+                drift = float(np.abs(atoms.get_center_of_mass() - com0).max())
+                if drift > 1e-9:
+                    rep.violation(f"com-drift:{kind}", f"{kind}: with FixCom the centre of mass drifted by {drift:.3e} A over {steps} steps", dict(ctx, drift=drift))
+            else:
+                moved = float(np.abs(atoms.get_positions()[fixed] - pos0[fixed]).max())
+                if moved != 0.0:
+                    rep.violation(f"fixed-atom-moved:{kind}", f"{kind}: atoms fixed by FixAtoms moved by {moved:.3e} A", dict(ctx, fixed=fixed))
+            if float(np.abs(atoms.get_positions() - pos0).max()) == 0.0:
+                rep.error(f"vacuity: nothing moved in {kind}/{constraint}")
+    # ---- FixRot.adjust_momenta: zero angular momentum, unchanged linear momentum ----------------------------
+    nrot = 200 if tier == "quick" else 5000
+    worst = 0.0
+    for it in range(nrot):
+        n = int(rs.randint(3, 9))
+        pos = rs.randn(n, 3) * rs.uniform(0.5, 3) + rs.uniform(-5, 5, 3)
+        a = Atoms("Cu" * n, positions=pos)
+        a.set_masses(rs.uniform(1, 200, n))
+        I = a.get_moments_of_inertia()
+        if I.min() < 1e-3 * I.max():
+            continue  # (nearly) collinear: outside the property
+        p = rs.uniform(-10, 10, (n, 3))
+        P0 = p.sum(0)
+        q = p.copy()
+        FixRot().adjust_momenta(a, q)
+        r = a.positions - a.get_center_of_mass()
+        L = np.cross(r, q).sum(0)
+        scale = np.abs(np.cross(r, p)).sum() + 1e-30
+        rep.count(("fixrot", it))
+        worst = max(worst, float(np.abs(L).max() / scale))
+        if np.abs(L).max() > 1e-9 * scale:
+            rep.violation("fixrot:angular-momentum", f"FixRot leaves |L| = {np.abs(L).max():.3e} (scale {scale:.3e}) for a non-collinear geometry", {"positions": pos.tolist(), "masses": a.get_masses().tolist()})
+        if np.abs(q.sum(0) - P0).max() > 1e-9 * (np.abs(p).sum() + 1e-30):
+            rep.violation("fixrot:linear-momentum", f"FixRot changed the total linear momentum by {np.abs(q.sum(0) - P0).max():.3e}", {"positions": pos.tolist()})
+    rep.add(constraint_runs=2 * nrun, fixrot_cases=nrot, worst_fixrot_residual=worst,
+            rule="(a) engine traces (Canonical, HamiltonianCanonical, Isobaric, GrandCanonical with FixAtoms / FixCom) validated against QMC.tla + exhaustive MC_QMC.tla (C12_FixedNeverMove); (b) runs of displacement (vetoing check_move, composites, molecular rotation), Hamiltonian (dt 0.5 / 2 fs, 1-20 steps, vetoes) and force-bias moves (delta 0.01 / 0.3, T 300 / 5000, fictitious sampler masses) with FixCom (drift <= 1e-9 A) and FixAtoms (exactly unmoved); FixRot.adjust_momenta on random non-collinear geometries (|L| and dP <= 1e-9 relative)")
+    rep.assumptions += ["FixCom drift tolerance 1e-9 A; FixAtoms: bit-exact", "geometries whose smallest principal moment is below 1e-3 of the largest are outside the FixRot clause"]
+    return rep.finish()
